@@ -17,6 +17,12 @@ def main():
     src, sid, prop = sys.argv[1:4]
     checks = sys.argv[4:] or [prop]
     tier = os.environ.get("EVAL_TIER", "quick")
+    at = os.environ.get("EVAL_VERIF_AT")          # evaluate with /verif as it was at this commit
+    run_dir = VERIF
+    if at:
+        run_dir = "/var/tmp/verif-at-%s" % at
+        if not os.path.isdir(run_dir):
+            sh("git -C %s worktree add --detach %s %s" % (VERIF, run_dir, at))
     wt = "/var/tmp/penne-ev-%d" % os.getpid()
     bd = wt + ".build"
     meta = {"id": sid, "property": prop, "source": "independent sub-agent (given only the property text and a scratch worktree)",
@@ -37,7 +43,7 @@ def main():
         os.makedirs(bd, exist_ok=True)
         sh("cp -a %s/.build/penne %s/penne" % (VERIF, bd))
         env = dict(os.environ, VERIF_REPO=wt, VERIF_BUILD=bd, VERIF_WORK="/dev/shm/penne-ev-%d" % os.getpid())
-        r = sh("%s/tools/build.sh" % VERIF, env=env)
+        r = sh("%s/tools/build.sh" % run_dir, env=env)
         meta["builds_alpha"] = r.returncode == 0
         if r.returncode != 0:
             meta["build_error"] = r.stdout[-800:]
@@ -63,12 +69,20 @@ def main():
         meta["checks"] = {}
         for c in checks:
             t0 = time.time()
-            r = sh("cd %s && ./check %s --tier %s" % (VERIF, c, tier), env=env)
+            r = sh("cd %s && ./check %s --tier %s" % (run_dir, c, tier), env=env)
             classes = sorted(set(re.findall(r"^  ([a-zA-Z_0-9/]+)[ :(]", r.stdout, re.M)))
             viol = re.findall(r"^VIOLATION .*$", r.stdout, re.M)
             meta["checks"][c] = {"tier": tier, "exit": r.returncode, "violation_lines": len(viol), "classes": classes,
                                  "summary": r.stdout.strip().splitlines()[-1][:300] if r.stdout.strip() else "", "wall_s": round(time.time() - t0, 1)}
         meta["caught_by"] = sorted(c for c, v in meta["checks"].items() if v["exit"] == 1)
+        if at:
+            # only the baseline is recorded; everything else in meta.json stays
+            mp0 = os.path.join(VERIF, "seeded", sid, "meta.json")
+            old = json.load(open(mp0))
+            old["baseline_evaluation"] = {"verif_commit": at, "note": "the checks as committed when the sub-agent that wrote this change was started",
+                                          "checks": meta["checks"], "caught_by": meta["caught_by"]}
+            meta.clear()
+            meta.update(old)
         return meta
     finally:
         sh("git -C /repo worktree remove --force %s" % wt)
